@@ -776,6 +776,8 @@ func workerMain(markerPath string) {
 				runLpHist(t, a)
 			case "lpburst":
 				runLpBurst(t, a)
+			case "lpreconf":
+				runLpReconf(t, a)
 			}
 			for k := range a.distinct {
 				a.res.Distinct = append(a.res.Distinct, k)
@@ -810,6 +812,16 @@ func describeCase(t task, a *acc) {
 		fr := burstFrames(c)
 		ex["input_hex"] = inputHex(fr[len(fr)-1].bytes)
 		ex["len"] = len(fr[len(fr)-1].bytes)
+		return
+	}
+	if t.Family == -3 { // reconfiguration history
+		h := reconfDecode(t.Lo)
+		ex["case"] = fmt.Sprintf("n=%d local=%v: %s", lpConfigs[t.N].n, lpConfigs[t.N].local, reconfDescribe(h))
+		if last := h[len(h)-1]; last >= reconfSetters {
+			fr := reconfFrame(lpConfigs[t.N].n, last)
+			ex["input_hex"] = inputHex(fr)
+			ex["len"] = len(fr)
+		}
 		return
 	}
 	if len(t.Prefix) > 0 { // lpseq single: prefix[0] then lpAlphabet[Lo]
